@@ -6,7 +6,7 @@ from . import vocab
 
 ORD_KEYS = ["nop", "push_rax", "pop_rax", "push_rbx", "pop_rbx", "mov_rr",
             "xor", "add"]
-SYM_KEYS = ["lea_sym", "mov_sym"]
+SYM_KEYS = ["lea_sym", "mov_sym", "cmp_sym", "movi_sym"]
 TERMS = ["none", "jmp", "jcc", "call", "ret", "ijmp", "icall", "halt"]
 TERM_W = [30, 12, 12, 14, 14, 5, 5, 8]
 MARK_BASE = 0x5A0000
@@ -120,7 +120,8 @@ class Gen:
                 n = 1
             for _ in range(n):
                 if rng.random() < 0.25 and any_labels:
-                    it = {"k": rng.choice(SYM_KEYS),
+                    it = {"k": rng.choice([k for k in SYM_KEYS
+                                           if k in vocab.VOCAB[isa]]),
                           "t": rng.choice(any_labels)}
                     if rng.random() < 0.3:
                         it["add"] = rng.choice([1, 4, -8, 16])
@@ -146,6 +147,10 @@ class Gen:
                 else:
                     t = rng.choice(case["externs"])
                 b["items"].append({"k": "call", "t": t})
+            elif term in ("ijmp", "icall") and isa != "arm64" and \
+                    self.knobs.get("sym_indirect") and rng.random() < 0.6:
+                b["items"].append({"k": term + "_sym",
+                                   "t": rng.choice(case["externs"])})
             else:
                 b["items"].append({"k": term_key(isa, term, rng)})
         for b in all_blocks:
@@ -170,6 +175,9 @@ class Gen:
                                  "ivs": self.split_ivs(dblocks)})
         if code_blocks and rng.random() < 0.5:
             case["entry"] = rng.choice(code_blocks)["id"]
+        if fmt == "pe" and code_blocks and rng.random() < 0.5:
+            case["safeseh"] = sorted({rng.choice(code_blocks)["id"]
+                                      for _ in range(rng.choice([1, 1, 2, 3]))})
         for b in all_blocks:
             b.pop("term", None)
         self.case = case
@@ -248,8 +256,10 @@ class Gen:
             if r < 0.45:
                 lines.append({"k": rng.choice(ORD_KEYS)})
             elif r < 0.65 and self.any_labels:
-                lines.append({"k": rng.choice(SYM_KEYS),
-                              "t": rng.choice(self.any_labels + own)})
+                lines.append({"k": rng.choice(
+                    [k for k in SYM_KEYS
+                     if k in vocab.VOCAB[self.case["isa"]]]),
+                    "t": rng.choice(self.any_labels + own)})
             elif r < 0.75:
                 nm = labels_here[1] if labels_here[1] not in own else None
                 if nm:
